@@ -5,14 +5,16 @@
 (* plus the direct field updates of the block processor (sparse += n after make_extended) and of the tree serialiser      *)
 (* (link count).  C01 / C03: whatever the order of calls, the inode that reaches the image holds every value that was     *)
 (* set last - the basic form is only ever chosen when it can hold them all.                                                *)
-(* Values are classes: 0, "lo" (fits 32 bit, below 2^32 - 1), "max" (= 2^32 - 1), "hi" (> 2^32 - 1).                       *)
+(* Values are classes: 0, "lo" (fits 32 bit, below 2^32 - 1), "max" (= 2^32 - 1), "hi" (> 2^32 - 1), "huge" (a size of so   *)
+(* many blocks that the block size list is longer than any stack: the serialiser has to cope with a list of any length).    *)
 EXTENDS Naturals, Sequences, FiniteSets, TLC, Json
 CONSTANTS MaxOps, Emit,
           BasicChecksSparse, BasicChecksNlink, BasicChecksStart, BasicChecksSize,     \* the refusals of make_basic (TRUE as built)
-          ExtKeepsFrag                                                                 \* make_extended carries the fragment location over (TRUE as built)
+          ExtKeepsFrag,                                                                \* make_extended carries the fragment location over (TRUE as built)
+          ListOnStack                                                                  \* deviation (pinned tree before fix 9497206): the block size list is copied to the stack in one piece
 
-Val == {"zero", "lo", "max", "hi"}
-Fits32(v) == v # "hi"
+Val == {"zero", "lo", "max", "hi", "huge"}
+Fits32(v) == v \notin {"hi", "huge"}
 Ops == {<<"size", v>> : v \in Val} \cup {<<"start", v>> : v \in Val} \cup {<<"frag", f>> : f \in {"none", "some"}}
        \cup {<<"xattr", x>> : x \in {"none", "some"}} \cup {<<"sparse">>, <<"nlink", 1>>, <<"nlink", 2>>, <<"ext">>, <<"basic">>}
 
@@ -51,7 +53,7 @@ Do == /\ pc <= Len(prog)
                       /\ (~BasicChecksSparse \/ ~sparse) /\ (~BasicChecksNlink \/ nlink <= 1)
                    THEN /\ ext' = FALSE /\ sparse' = FALSE /\ nlink' = 1 /\ xattr' = "none"
                         /\ trunc' = (trunc \/ ~Fits32(start))
-                   ELSE IF ~ext /\ op[2] = "hi"
+                   ELSE IF ~ext /\ op[2] \in {"hi", "huge"}
                    THEN /\ ext' = TRUE /\ sparse' = FALSE /\ nlink' = 1 /\ xattr' = "none" /\ trunc' = trunc
                    ELSE UNCHANGED <<ext, sparse, nlink, xattr, trunc>>
            [] op[1] = "start" ->                           \* sqfs_inode_set_file_block_start
@@ -61,7 +63,7 @@ Do == /\ pc <= Len(prog)
                       /\ (~BasicChecksSparse \/ ~sparse) /\ (~BasicChecksNlink \/ nlink <= 1)
                    THEN /\ ext' = FALSE /\ sparse' = FALSE /\ nlink' = 1 /\ xattr' = "none"
                         /\ trunc' = (trunc \/ ~Fits32(size))
-                   ELSE IF ~ext /\ op[2] = "hi"
+                   ELSE IF ~ext /\ op[2] \in {"hi", "huge"}
                    THEN /\ ext' = TRUE /\ sparse' = FALSE /\ nlink' = 1 /\ xattr' = "none" /\ trunc' = trunc
                    ELSE UNCHANGED <<ext, sparse, nlink, xattr, trunc>>
            [] op[1] = "frag" ->
@@ -100,5 +102,8 @@ Got == [size |-> size, start |-> start, frag |-> frag, sparse |-> (ext /\ sparse
 Faithful == Got = want
 BasicHoldsAll == ~ext => (Fits32(size) /\ Fits32(start))
 NoTruncation == ~trunc
+(* writing the inode: the block size list has one entry per block of the file, however many that are *)
+Written == IF ListOnStack /\ size = "huge" THEN "crash" ELSE "ok"
+SerialisesAnyLength == pc > Len(prog) => Written = "ok"
 EmitOK == (Emit /\ pc > Len(prog)) => PrintT(<<"RESULT", ToJson([prog |-> prog, ext |-> ext, got |-> Got])>>)
 =============================================================================
